@@ -22,6 +22,21 @@ CLAIMED = {
          "with a denominator <= 10^6 are judged against a one-microsecond bracket.",
     technique="TLA+ odometer state machine model-checked with TLC + trace validation of implementation observations against it",
     design_ref="6/C12"),
+  "C17": dict(
+    level="model_checking",
+    text="spec/Cea608Word.tla writes the CEA-608 code space as class predicates over the bit patterns of the two "
+         "parity-stripped bytes (independently of ttconv's enumerated tables) with PAC/mid-row/control/attribute decoding and "
+         "the standard/special/extended character tables; TLC sweeps all 65 536 word values and checks that the predicates "
+         "partition the space and that class and channel ignore parity. The implementation is bound exhaustively in both "
+         "tiers: SccWord.from_value is observed on all 65 536 values (class via get_code()/byte ranges as SccLine.process "
+         "uses them, channel, row, indent, colour, italics, underline, control name, decoded code points) and "
+         "spec/Trace_Cea608Word.tla compares every observation with the operators; disassembly renderings of all lines of "
+         "<= 3 (quick) / <= 4 (thorough) words over a 29-word alphabet are lexed and checked to render every word in order.",
+    note="Trusted: TLC, the harness projection (colour -> name, text -> code points) and the disassembly lexer. CTA-608 names "
+         "glyphs, not code points: where several Unicode renderings are customary the spec accepts a listed set (Ext2/Ext3 in "
+         "the module). Second text bytes 01h..1Fh are undefined and not judged.",
+    technique="TLA+ transcription of the CEA-608 code space checked exhaustively by TLC + exhaustive trace validation of all 65 536 words",
+    design_ref="6/C17"),
 }
 
 NOT_YET = "check not built yet in this round; see DESIGN.md section 6 for the planned TLA+ specification"
